@@ -11,6 +11,8 @@
   working directory is process state. The child builds a sandbox `<dir>/c<id>/{bin,proj}`, runs
   build…/package (and publish) through the public API, and reports exception code, cwd before/after, the file
   listing and the stub log.
+  A case `{"seq": [case, …]}` runs its steps one after the other in ONE child (`_run_seq`): each step in a sandbox of its own
+  below the child's directory, with `os.chdir` between them — the working directory and pydjinni's module state carry over.
 * `run_cases`: pool of workers; `model_request`: the same case as a request for the Lean model (`c20.run`).
 """
 from __future__ import annotations
@@ -385,6 +387,23 @@ def _run_case(case, root: Path, api):
     return obs
 
 
+def _run_seq(case, root: Path, api):
+    """several operations in ONE process: step i runs in a sandbox of its own (`<root>/s<i>`: project directory, output base, stub
+    tools and their log), the process changes into the step's start directory between the operations, nothing else is reset —
+    module state of pydjinni, the `API` object (unless the step asks for a fresh one) and the process working directory carry over"""
+    from pydjinni import API
+    out = []
+    for i, step in enumerate(case["seq"]):
+        sub = root / f"s{i}"
+        sub.mkdir(parents=True)
+        try:
+            out.append(_run_case(step, sub, API() if step.get("fresh_api") else api))
+        except BaseException as e:  # noqa: BLE001
+            import traceback
+            out.append({"harness_error": f"{type(e).__name__}: {e}", "trace": traceback.format_exc()[-1500:]})
+    return {"steps": out}
+
+
 def worker_main(base: Path):
     elsewhere = base / "elsewhere"
     elsewhere.mkdir(parents=True, exist_ok=True)
@@ -408,7 +427,7 @@ def worker_main(base: Path):
                 os.dup2(dn, 1)
                 os.dup2(dn, 2)
                 try:
-                    res = _run_case(case, root, api)
+                    res = _run_seq(case, root, api) if "seq" in case else _run_case(case, root, api)
                 except BaseException as e:  # noqa: BLE001
                     import traceback
                     res = {"harness_error": f"{type(e).__name__}: {e}", "trace": traceback.format_exc()[-1500:]}
